@@ -252,6 +252,7 @@ func seqSys(double bool, c1, c2, depth int) *seqx.Sys {
 		OpLabel:  func(op int) string { return ops[op].String() },
 		MaxDepth: depth,
 		Workers:  1,
+		ModelKey: func(m interface{}) string { md := m.(*model); return fmt.Sprint(md.q, md.capa) },
 	}
 }
 
@@ -317,6 +318,8 @@ func (s cscen) scenario() dfs.Scenario {
 						if v != nil {
 							got[ci] = append(got[ci], v.(string))
 							prio = append(prio, v.(string))
+						} else if s.timed == 0 {
+							early = "a blocking Get returned nil (no element was ever enqueued as nil): it came back without an element"
 						}
 					}
 				})
@@ -373,6 +376,9 @@ func (s cscen) scenario() dfs.Scenario {
 				}
 			}
 			if early != "" {
+				if strings.HasPrefix(early, "a blocking") {
+					return "spurious-nil: " + early
+				}
 				return "early-timeout: " + early
 			}
 			size := 0
